@@ -90,13 +90,13 @@ TEXT = {
         "DESIGN.md 3 (W9), 4 (C17)",
     ),
     "C18": (
-        "Accounting identities as invariants along every simulated ceremony: conservation, fee floor on the final vsize, fee == ceil(rate * vsize) on the priced size, dust rule, refusal of insufficient inputs, estimated_weight before signing >= weight after (with grinding and non-grinding signers, multisig up to 15 keys), size / weight / vsize identities.",
-        "Unit conversions and money-range refusals (pure arithmetic on one argument) are not decided. Trusted: btcsim/ref/fees.py.",
+        "Accounting identities as invariants along every simulated ceremony: conservation, fee floor on the final vsize, fee == ceil(rate * vsize) on the priced size, dust rule, refusal of insufficient inputs, estimated_weight before signing >= weight after (with grinding and non-grinding signers, multisig up to 15 keys, 251-253 payments), size / weight / vsize identities; and the satoshi/BTC and fee-rate conversions, money-range refusals and ceil fees under a drawn ambient decimal context (precision 1..50, six rounding modes) against exact integer / Fraction arithmetic.",
+        "Trusted: btcsim/ref/fees.py, fractions.Fraction. The ambient decimal context is taken to be the only environment the conversions can depend on.",
         "deterministic simulation: invariants over the funded -> signed -> extracted pipeline of a multi-party ceremony under courier faults",
         "DESIGN.md 3 (W5), 4 (C18)",
     ),
     "C19": (
-        "For every entry point a receiver calls on transmitted or stored data, the same systematic fault walk as C05 plus drawn bit flips, and hostile scripts behind valid commitments handed to the engine: only library exceptions escape, no over-read of the caller's stream, each call consumes / refuses / asks for more (no livelock), boolean verifiers answer; each call runs under a per-call CPU budget.",
+        "For every entry point a receiver calls on transmitted or stored data, the same systematic fault walk as C05 plus drawn bit flips and long runs of one octet, hostile scripts behind valid commitments handed to the engine, the streamed PsbtView on every PSBT mutant, and a malicious peer's cfilters / merkle branches / signatures / proofs of hostile sizes handed to the decoders and boolean verifiers: only library exceptions escape, no over-read of the caller's stream, each call consumes / refuses / asks for more (no livelock), boolean verifiers answer; each call runs under a per-call CPU budget.",
         "Parsers no party calls on a wire (BIP21, descriptor and miniscript text) are not covered. CPU budget via ITIMER_VIRTUAL.",
         "deterministic simulation: fault enumeration (corruption / truncation / splicing at every position class) on every receiver entry point",
         "DESIGN.md 3 (W4), 4 (C19)",
